@@ -89,12 +89,16 @@ func vBool(name string, idx ...int) bool {
 func vAssume(c bool) {
 	if !c {
 		vAssumeFailed = append(vAssumeFailed, "assume")
+		fmt.Println("VERIF-ASSUME-FAILED")
 	}
 }
 
+// failures are printed at once (in execution order) so that a later log.Fatal of the
+// code under test cannot hide them and so that the order relative to assumptions is known
 func vAssert(id string, c bool) {
 	if !c {
 		vFailures = append(vFailures, id)
+		fmt.Println("VERIF-FAIL", id)
 	}
 }
 
